@@ -422,6 +422,16 @@ func (s *stream) wait() {
 func (s *stream) Close(closeWithCancel bool) {
 	s.closeWithCancel = closeWithCancel
 
+	if !s.open {
+		// already closed: we are inside a rebalance window (or were never opened).
+		// Make sure the pending rebalance does not reopen the stream after shutdown.
+		if s.rebalanceTimer != nil {
+			s.rebalanceTimer.Stop()
+		}
+
+		return
+	}
+
 	s.eventHandler.BeforeStreamStop()
 
 	if !s.config.RollbackMitigation.Disabled {
